@@ -23,11 +23,25 @@ DECLS = [  # type, empty, length, rule, maxlen (None = unbounded), stub
     ("Integer", True, "1...3", "", 4, "int"),
     ("Decimal", False, "", "0...299.99", 4, "dec"),
     ("Decimal", True, "", "", 3, "dec"),
-    ("DateTime", False, "", "DD.MM.YYYY hh:mm", 8, "time"),
+    ("DateTime", False, "", "DD.MM.YYYY hh:mm", 12, "time"),
+    ("DateTime", False, "", "YYYY-MM-DD hh:mm:ss", 12, "time"),
     ("DateTime", False, "", "YYYY-MM-DD", 12, "time"),
     ("RegEx", False, "", "a[bc]*d?", 3, None),
     ("Constant", False, "", "abc", None, None),
 ]
+
+
+class EchoTimeModule:
+    """S-STRP for the relational query: the 'parsed value' is the text and layout it was given, so that two formats
+    agree on the value only if they hand the same text to strptime"""
+
+    def __init__(self, fail):
+        self.fail = fail
+
+    def strptime(self, text, fmt):
+        if self.fail:
+            raise ValueError("stub: does not match")
+        return ("parsed", text, fmt)
 
 
 def make(decl):
@@ -61,9 +75,7 @@ def make(decl):
                 assume(-10 ** 6 < n < 10 ** 6)
                 trip.append((fields, "decimal", FakeDecimalModule(fail, decimal.Decimal(n).scaleb(-2))))
             elif stub == "time":
-                fake = FakeTimeModule(fail)
-                fake.token = "parsed"
-                trip.append((fields, "time", fake))
+                trip.append((fields, "time", EchoTimeModule(fail)))
             with patched(*trip):
                 try:
                     outcomes.append(("acc", field.validated(cell)))
@@ -90,6 +102,12 @@ def make(decl):
         cell = args["cell"]
         candidates = [cell, str(args["n"]), "%.2f" % (args["n"] / 100.0), "".join(c if c in ".,-" else "5" for c in cell),
                       "".join(c if c in ".,-" else "5" for c in cell) + ",", "1,5", "1,234.50"]
+        if type_name == "DateTime":
+            import time
+            from props.c02 import strptime_format_oracle
+            fmt_ = strptime_format_oracle(rule)
+            for st in (time.struct_time((2003, 2, 1, 0, 0, 0, 5, 32, -1)), time.struct_time((1999, 12, 31, 23, 59, 58, 4, 365, -1))):
+                candidates.append(time.strftime(fmt_, st))
         for text in candidates:
             outs = []
             for fmt in FORMATS:
@@ -103,7 +121,7 @@ def make(decl):
                     outs.append(("acc", field.validated(text)))
                 except errors.FieldValueError:
                     outs.append(("rej", None))
-            if type_name == "DateTime" and text.endswith(" 00:00:00"):
+            if type_name == "DateTime" and "hh" not in rule and text.endswith(" 00:00:00"):
                 continue
             if any(o != outs[0] for o in outs[1:]):
                 return True, "%s field (rule %r), cell %r: outcomes per format %r = %r" % (type_name, rule, text, FORMATS, outs), \
@@ -172,6 +190,30 @@ def native_storage():
             failures.append(dict(key="cid-storage", what="the same CID stored as csv/ods/xlsx loads as %r" % (sums,), args={}))
         else:
             samples.append(dict(query="native/cid-storage", summary=str(sums["csv"])[:300]))
+        # a CID whose number-looking cells are stored as real number cells in the workbook (what a spreadsheet does)
+        num_rows = [["d", "format", "delimited"], ["d", "header", 0], ["f", "zero", 0, "", 1, "Integer", 0],
+                    ["f", "code", 7, "X", "", "Integer", "0...99"], ["f", "none", "", "X", 0, "Text", ""]]
+        as_text = [[("%d" % c if isinstance(c, int) else c) for c in r] for r in num_rows]
+        n += 1
+        p = os.path.join(d, "numeric_cid.xlsx")
+        wb = xlsxwriter.Workbook(p)
+        ws = wb.add_worksheet()
+        for y, row in enumerate(num_rows):
+            for x, c in enumerate(row):
+                if isinstance(c, int):
+                    ws.write_number(y, x, c)
+                else:
+                    ws.write_string(y, x, c)
+        wb.close()
+        try:
+            a = summary(interface.Cid(p))
+        except Exception as e:  # noqa
+            a = "%s: %s" % (type(e).__name__, e)
+        c = interface.Cid()
+        c.read("<text>", as_text)
+        b = summary(c)
+        if a != b:
+            failures.append(dict(key="cid-storage-number-cells", what="CID with number cells in xlsx loads as %r, as text %r" % (a, b), args={}))
         # data: same table, CIDs differing only in Format
         table = [["id", "name", "name2", "flag"], ["1", "Anna", "Anna", "Y"], ["x", "Bob", "Bob", "Y"], ["3", "", "", "N"],
                  ["4", "Dora", "Dora", "Q"], ["5", "Eve", "Eve"]]
